@@ -6,6 +6,7 @@
 import N2V.Lemmas.LoadInv
 import N2V.Lemmas.SchedWantInv
 import N2V.Lemmas.SchedWantTerm
+import N2V.Lemmas.WorkFrame
 import N2V.Model.Work
 namespace N2V.Work
 open N2V N2V.Load
@@ -99,4 +100,13 @@ theorem loadEnv_graph_ok (w : World) (m : Bytes) (l : Loader) (e0 : Env) (h : lo
     have inv : GInv l.graph := load_inv false _ m l hl
     have := applyLog_inv w.log { g := l.graph, disc := [], hashes := [], cache := [], fs := w.fs, clock := w.clock, log := w.log } inv
     exact ⟨this, schedGraph_ok _ this⟩
+theorem ginv_idsOK (g : GraphM) (inv : GInv g) : IdsOK g := by
+  intro b bm hb f hf
+  unfold buildOf at hb
+  rcases List.mem_append.mp hf with h | h
+  · obtain ⟨fm, hfm, _⟩ := inv.ins b bm hb f h
+    exact (List.getElem?_eq_some_iff.mp hfm).1
+  · obtain ⟨fm, hfm, _⟩ := inv.outs b bm hb f h
+    exact (List.getElem?_eq_some_iff.mp hfm).1
+
 end N2V.Work
